@@ -44,7 +44,7 @@ func (c02) Thresholds(tier string) map[string]int64 {
 		"context:set":               2000,
 		"context:if":                300,
 		"context:command":           1000,
-		"table-rows":                800,
+		"table-rows":                500,
 		"expressions-evaluated-twice-by-one-runner": 8000,
 		"special-operand:nan":                       50,
 		"special-operand:inf":                       50,
